@@ -60,6 +60,14 @@ def run(report: Report, tier, seed):
     report.bounded.append(Bounded(function="abi X.set(another ABI value)", contract="rejected when built, refused at run time, or the destination encodes the same logical value per ARC-4 (no silent truncation / re-interpretation)",
                                   bound=f"all ordered pairs of {len(A.COPY_TYPES)} types (uint widths, bool, byte, string / byte[] / address / byte[N], small arrays and tuples) x boundary values x main routine / subroutine",
                                   cases=len(cr), distinct_nontrivial=sum(1 for r in cr if r["accepted"]), failures=len(cbad)))
+    lj = A.length_jobs(tier)
+    lr = A.pool_map(A.length_case, lj)
+    lbad = [r for r in lr if r["problems"]]
+    report.bounded.append(Bounded(function="length prefix of dynamic values (String / DynamicBytes / DynamicArray set from literals, expressions and element values; string inside a tuple; StaticBytes literal)",
+                                  contract="encoded length, SHA-256 and first two bytes equal the reference codec's",
+                                  bound=f"{len(A.LEN_ROUTES)} routes x lengths {A.LEN_BOUNDARIES} x versions", cases=sum(r["ran"] for r in lr), distinct_nontrivial=len(lj), failures=len(lbad)))
+    for b in lbad[:2]:
+        report.violation(Violation(key=f"length:{b['job'][0]}:{b['job'][1]}", what=b["problems"][0][:400], replay={"input": {"length": b["job"]}, "teal": b.get("teal")}, confirmed_native=True))
     report.sample({"shape": jobs[40][0], "what": "assembled with set() from parts, Log(encode()) compared with algosdk"})
     report.extra["explanation"] = "P: layout arithmetic (pyvc); B: Expr layer against algosdk on generated shapes/values"
     report.settle_undecided(lambda fn, obs: (bad[0] if bad else None) and {"input": {"shape": bad[0]["shape"], "seed": bad[0]["seed"], "version": bad[0]["version"], "in_sub": bad[0]["in_sub"]}, "problems": bad[0]["problems"][:2]})
@@ -80,6 +88,10 @@ def replay(data):
     r = data.get("replay") or {}
     nat = r.get("native") or r
     inp = nat.get("input")
+    if inp and inp.get("length"):
+        out = A.length_case(tuple(inp["length"]))
+        print(out["problems"][:2])
+        return 1 if out["problems"] else 0
     if inp and inp.get("copy"):
         out = A.copy_case(tuple(inp["copy"]))
         print(out["problems"][:2])
